@@ -32,3 +32,7 @@ package chain
 //@   ensures forall i int :: 0 <= i && i < len(a) ==> a[i] in result
 //@   ensures len(a) >= 1 ==> a[0] in result
 //@   loop 1 invariant forall x Address :: (x in set) <==> (exists i int :: 0 <= i && i < rangeidx1 && a[i] == x)
+
+//@ spec func addrOfKey(s ref, key []byte) Address
+//@ assume func Signing.PublicKeyBytesToAddress
+//@   ensures result == @addrOfKey(recv, publicKey)
